@@ -37,7 +37,12 @@ if res.get("apply_rc") == 0:
     try:
         for pid in pids:
             t0 = time.time()
+            # the evidence file describes the UNCHANGED tree: keep it across this run on a patched tree
+            ev = f"/verif/evidence/{pid}.json"
+            keep = open(ev).read() if os.path.exists(ev) else None
             rc, out = sh(f"./check {pid} quick", cwd="/verif", env=os.environ)
+            if keep is not None:
+                open(ev, "w").write(keep)
             lines = [l for l in out.splitlines() if l.startswith("VIOLATION") or l.startswith(pid)]
             res[f"check_{pid}"] = {"rc": rc, "lines": lines, "s": round(time.time() - t0)}
     finally:
